@@ -45,6 +45,8 @@ static CondSink * gCondSink = nullptr;
 struct L2 { TCallback cb; explicit L2(int id) : cb(id) {} void operator() (int a, int b) const { cb(a, b); } };
 struct L1 { TCallback cb; explicit L1(int id) : cb(id) {} void operator() (int a) const { cb(a); } };
 struct CondA { int wid; bool operator() (int a, int b) const { return gCondSink ? gCondSink->onCond(wid, true, a, b) : false; } };
+// callable with the trigger's arguments AND with none (default arguments): the statement says "with the trigger's arguments if it accepts them"
+struct CondB { int wid; bool operator() (int a = -12345, int b = -12345) const { return gCondSink ? gCondSink->onCond(wid, true, a, b) : false; } };
 struct CondN { int wid; bool operator() () const { return gCondSink ? gCondSink->onCond(wid, false, 0, 0) : false; } };
 
 static int keyVal(int k) { return 11 * (k + 1); }
@@ -282,7 +284,8 @@ struct World : CallbackSink, CondSink
 			for(int i = 0; i < len; ++i) sc += n.script[i] ? '1' : '0';
 			sc += n.tail ? "1*" : "0*";
 			what = std::string("ConditionalRemover") + (persistent ? "(kept)" : "(temporary)") + (kind == NK_COND_ARGS ? " cond(a,b)" : " cond()") + " script=" + sc;
-			if(kind == NK_COND_ARGS) { CondA c; c.wid = cbid; h = ad.addCond(key, where, L2(cbid), hb, c, persistent); }
+			if(kind == NK_COND_ARGS && cbid % 3 == 0) { CondB c; c.wid = cbid; h = ad.addCond(key, where, L2(cbid), hb, c, persistent); count("wrapped.conditional.callable_both_ways"); }
+			else if(kind == NK_COND_ARGS) { CondA c; c.wid = cbid; h = ad.addCond(key, where, L2(cbid), hb, c, persistent); }
 			else { CondN c; c.wid = cbid; h = ad.addCond(key, where, L2(cbid), hb, c, persistent); }
 			count(kind == NK_COND_ARGS ? "wrapped.conditional.with_args" : "wrapped.conditional.no_args");
 		}
